@@ -44,7 +44,7 @@ def main():
                 txt = open(demo).read().replace("/tmp/wt/%s" % prop, wt)
                 open(wt + "-demo.sh", "w").write(txt)
                 os.makedirs("/tmp/wt/%s-demo" % prop, exist_ok=True)
-                return sh("sh %s-demo.sh" % wt, timeout=600)
+                return sh("bash %s-demo.sh" % wt, timeout=600)
             shutil.copy(demo, os.path.join(wt, "zz_" + demo_name))
             fn = "TestDemo"
             r = sh("timeout 600 go test -vet=off -count=1 -run %s ." % fn, cwd=wt)
